@@ -139,6 +139,8 @@ def gen_writer_case(rng):
             headers.append('#..file:')
         elif c[0] == 'write_preamble':
             c[1] = sl.S(_no_marker(c[1]['s']))
+            if rng.random() < 0.2:
+                c[1] = sl.S(c[1]['s'] + rng.choice(['\n\n#diffx: version=1.0\n', '\n#diffx:\n']))
             c[2] = utf8()
             headers.append('#' + '.' * (level + 1) + 'preamble:')
         elif c[0] == 'write_meta':
@@ -151,7 +153,13 @@ def gen_writer_case(rng):
                 s = d.decode('utf-8')
             except UnicodeDecodeError:
                 s = d.decode('latin-1')
-            c[1] = sl.Bv(_no_marker(s).encode('utf-8'))
+            s = _no_marker(s)
+            if rng.random() < 0.35:
+                # an EMPTY line directly followed by a line that looks like the main header (no "#." involved):
+                # still content, never a section header
+                cut = s.find('\n') + 1
+                s = s[:cut] + rng.choice(['\n#diffx: version=1.0\n', '\n#diffx:\n+x\n', '\n\n#diffx: encoding=utf-8\n']) + s[cut:]
+            c[1] = sl.Bv(s.encode('utf-8'))
             c[3] = utf8()
             headers.append('#...diff:')
         out_calls.append(c)
